@@ -361,6 +361,8 @@ func (s *Server) serveHTTP(ctx context.Context) error {
 		},
 	}
 
+	verifServer(&hsvr)
+
 	/* Serve until we fail or the context is cancelled. */
 	var ech = make(chan error, 1)
 	go func() {
